@@ -529,6 +529,60 @@ func genC19(ctx *Ctx) {
 	})
 	g.add("scoreSegments", strings.Join(scIf, "; ")+" lits "+strings.Join(lits, ","))
 
+	// ---- the options the writer plans with: index/config.go defaultConfig() must take them FROM the planner's
+	// own defaults (an identifier, not a literal that can forget a field: a missing TierGrowth is clamped to 1 by
+	// CalcBudget and the staircase never grows)
+	ipkg := ctx.ParseDir("index")
+	dc := ipkg.Func("defaultConfig")
+	if dc == nil || dc.Body == nil {
+		ctx.Refuse("index/config.go: defaultConfig not found")
+	}
+	var mpo []string
+	ast.Inspect(dc.Body, func(n ast.Node) bool {
+		switch x := n.(type) {
+		case *ast.KeyValueExpr:
+			if id, ok := x.Key.(*ast.Ident); ok && id.Name == "MergePlanOptions" {
+				mpo = append(mpo, strings.Join(strings.Fields(ipkg.Src(x.Value)), " "))
+			}
+		case *ast.AssignStmt:
+			for i, l := range x.Lhs {
+				if sel, ok := l.(*ast.SelectorExpr); ok && strings.Contains(ipkg.Src(sel), "MergePlanOptions") {
+					r := x.Rhs[0]
+					if i < len(x.Rhs) {
+						r = x.Rhs[i]
+					}
+					mpo = append(mpo, ipkg.Src(l)+" "+x.Tok.String()+" "+strings.Join(strings.Fields(ipkg.Src(r)), " "))
+				}
+			}
+		}
+		return true
+	})
+	if len(mpo) == 0 {
+		ctx.Refuse("index/config.go defaultConfig: MergePlanOptions is not initialised")
+	}
+	g.add("writer.mergePlanOptions", strings.Join(mpo, "; "))
+	for _, fn := range []string{"DefaultConfig", "InMemoryOnlyConfig", "DefaultConfigWithDirectory"} {
+		f := ipkg.Func(fn)
+		if f == nil || f.Body == nil {
+			ctx.Refuse("index/config.go: %s not found", fn)
+		}
+		calls, touches := 0, 0
+		ast.Inspect(f.Body, func(n ast.Node) bool {
+			switch x := n.(type) {
+			case *ast.CallExpr:
+				if id, ok := x.Fun.(*ast.Ident); ok && id.Name == "defaultConfig" {
+					calls++
+				}
+			case *ast.SelectorExpr:
+				if x.Sel.Name == "MergePlanOptions" {
+					touches++
+				}
+			}
+			return true
+		})
+		g.add("writer."+fn, fmt.Sprintf("defaultConfig()=%d MergePlanOptions-touched=%d", calls, touches))
+	}
+
 	// ---- determinism: no clock, random source, map or goroutine in the package
 	imports := map[string]bool{}
 	maps, gos, selects := 0, 0, 0
